@@ -5,6 +5,7 @@ import ast
 
 from ..canon import Cmp, Poly, to_cmp, to_poly
 from ..defuse import flatten_order, is_sym, key, norm_chains, show, strip_norm
+from ..engine import own_walk
 from ..model import AnalysisInconclusive
 from .common import call_fname, is_name, raise_class, seq_transformers, stmt_key
 
@@ -201,6 +202,14 @@ def check(ctx) -> None:
                 ctx.rep.holds("C19.cycle", f"{f.qualname}/index-dtype", "the running index 0..n-1 is a platform integer", where=w)
                 L2 = (core.value, core.slice.right)
         if L2 is None:
+            # the successor looked up by *value*: L[(L.index(<previous well>) + 1) % len(L)] follows the first occurrence of a
+            # well that the collection names twice, not the position that was reached
+            by_value = [x for x in own_walk(f.node) if isinstance(x, ast.Call) and isinstance(x.func, ast.Attribute) and x.func.attr == "index" and len(x.args) >= 1
+                        and any(isinstance(y, ast.Subscript) for y in ast.walk(x.args[0]))]
+            if by_value:
+                ctx.rep.refuted("C19.cycle", f"{f.qualname}/idiom", f"the next well is found with `{show(by_value[0])[:60]}`, i.e. by the value of the previous one: `.index` returns the first "
+                                "occurrence, so a collection that lists a well twice (A01, B01, A01, C01) is not cycled in the given order", where=f.where(by_value[0]))
+                return
             ctx.rep.inconclusive("C19.cycle", f"{f.qualname}/idiom", f"result `{show(val)[:80]}` is neither the repeat-and-truncate idiom (L * k)[:n] nor the loop [L[i % len(L)] for i in range(n)]", where=w)
             return
         L, M = L2
